@@ -83,7 +83,14 @@ var _ SpanProcessor = (*batchSpanProcessor)(nil)
 // If the exporter is nil, the span processor will perform no action.
 func NewBatchSpanProcessor(exporter SpanExporter, options ...BatchSpanProcessorOption) SpanProcessor {
 	maxQueueSize := env.BatchSpanProcessorMaxQueueSize(DefaultMaxQueueSize)
+	if maxQueueSize <= 0 {
+		// Out-of-range values are ignored in favor of the default.
+		maxQueueSize = DefaultMaxQueueSize
+	}
 	maxExportBatchSize := env.BatchSpanProcessorMaxExportBatchSize(DefaultMaxExportBatchSize)
+	if maxExportBatchSize <= 0 {
+		maxExportBatchSize = DefaultMaxExportBatchSize
+	}
 
 	if maxExportBatchSize > maxQueueSize {
 		if DefaultMaxExportBatchSize > maxQueueSize {
@@ -101,6 +108,21 @@ func NewBatchSpanProcessor(exporter SpanExporter, options ...BatchSpanProcessorO
 	}
 	for _, opt := range options {
 		opt(&o)
+	}
+	// Sizes less than one and negative durations cannot be honored (a negative
+	// size panics when the queue and the batch are allocated, a negative
+	// BatchTimeout makes the timer fire continuously): use the defaults.
+	if o.MaxQueueSize <= 0 {
+		o.MaxQueueSize = DefaultMaxQueueSize
+	}
+	if o.MaxExportBatchSize <= 0 {
+		o.MaxExportBatchSize = DefaultMaxExportBatchSize
+	}
+	if o.BatchTimeout < 0 {
+		o.BatchTimeout = DefaultScheduleDelay * time.Millisecond
+	}
+	if o.ExportTimeout < 0 {
+		o.ExportTimeout = DefaultExportTimeout * time.Millisecond
 	}
 	bsp := &batchSpanProcessor{
 		e:      exporter,
